@@ -4,13 +4,13 @@
 # Each is applied to a scratch worktree; the pinned suite must still pass and the check of that property
 # (and of every other property listed after the patch name: "Cxx:Cyy,Czz") must still exit 0.
 #   usage: check_refactor_seeds.sh [Cxx ...]
-cd /verif
+V="$(cd "$(dirname "$0")/.." && pwd)"; cd "$V"
 WT=/tmp/wt_refseed_$$
 git -C /repo worktree add -q --detach "$WT" HEAD || exit 9
 bad=0
 names="$@"; [ -n "$names" ] || names=$(ls seeded/refactors 2>/dev/null)
 for n in $names; do
-  f="/verif/seeded/refactors/$n/patch.diff"
+  f="$V/seeded/refactors/$n/patch.diff"
   [ -f "$f" ] || continue
   git -C "$WT" apply "$f" || { echo "$n APPLY-FAILED"; bad=1; continue; }
   tests=$(cd "$WT" && PYTHONPATH="$WT/src/python" PYTHONDONTWRITEBYTECODE=1 /venv/bin/python -m pytest -q -p no:cacheprovider --timeout=900 --continue-on-collection-errors 2>&1 | tail -1)
